@@ -219,6 +219,52 @@ func zzC03_CompactStaleTmp() {
 	zzReach("end")
 }
 
+// A rewriting command (compact, plan) killed at any system call: every later read succeeds and
+// still shows every acknowledged item; a later mutation works.
+func zzC03CrashDuringRewrite(cmd int) {
+	root := zzFSInit("1;winv=1;clean=1;Results=0")
+	opts, dir := zzFSOpts(root)
+	g0, err0 := loadGraph(dir)
+	zzAssume(err0 == nil)
+	n0 := zzCountTasks(g0)
+	delta := 0
+	zzProcBegin(true)
+	zzNoTornWrites() // a fragment can only land in the temp file, which no reader looks at
+	if cmd == 0 {
+		RunCompact(opts)
+	} else {
+		p := zzPlanDoc("1;Tasks=1;After=0")
+		zzStdinPiped(true)
+		zzStdinPlan(p, false)
+		zzAssume(p.Validate() == nil)
+		RunPlan(nil, opts)
+		delta = 2
+	}
+	zzProcAlive()
+	zzProcBegin(false)
+	g1, err1 := loadGraph(dir)
+	zzAssert(err1 == nil, "C03/rewrite: every read after a kill during a rewrite succeeds")
+	if err1 != nil {
+		return
+	}
+	n1 := zzCountTasks(g1)
+	zzAssert(n1 == n0 || n1 == n0+delta, "C03/rewrite: no acknowledged item is lost by a killed rewrite")
+	for k := range g0.Tasks {
+		zzAssert(g1.Tasks[k] != nil, "C03/rewrite: every item acknowledged before the rewrite is still there")
+	}
+	_, errB := createTask(dir, opts, "", false, "title-b", "body-b")
+	zzAssume(!errors.Is(errB, ErrLockBusy))
+	g2, err2 := loadGraph(dir)
+	zzAssert(errB == nil && err2 == nil, "C03/rewrite: a later mutation succeeds and leaves the store readable")
+	if err2 == nil && errB == nil {
+		zzAssert(zzCountTasks(g2) == n1+1, "C03/rewrite: and adds exactly its own item")
+	}
+	zzReach("end")
+}
+
+func zzC03_CrashDuringCompact() { zzC03CrashDuringRewrite(0) }
+func zzC03_CrashDuringPlan()    { zzC03CrashDuringRewrite(1) }
+
 // CUT used by the storage-protocol units: the derived, display-only Deps/RDeps slices are not
 // computed (sortedKeys summarised as "no keys"); nothing these units assert reads them.
 func zzSortedKeysCut(items map[string]struct{}) []string { return nil }
